@@ -3,6 +3,7 @@ package sim
 import (
 	"fmt"
 	"sort"
+	"strconv"
 	"strings"
 
 	"github.com/onheap/eval"
@@ -100,8 +101,13 @@ func (p propC04) Gen(r *Rng, tier string) *World {
 	w.API = []string{"tryeval", "tryeval", "tryevalbool"}[r.Intn(3)]
 	full := Plan{Bind: g.Binding()}
 	w.Calls = []Plan{full}
+	w.Extra = map[string]string{}
+	if r.P(0.25) {
+		w.Extra["fresh_ctx"] = "1" // a new Ctx per call instead of one per request
+	}
 	if r.P(0.7) {
 		w.EnumSplits = true
+		w.EnumFaults = r.P(0.4)
 		return w
 	}
 	// timeline
@@ -235,10 +241,20 @@ func (pr propC04) Run(w *World, st *Stats) *Violation {
 			c := mw.Clone()
 			c.EnumSplits = false
 			c.Extra = map[string]string{"unavail": strings.Join(unavail, ",")}
+			if w.Extra["fresh_ctx"] == "1" {
+				c.Extra["fresh_ctx"] = "1"
+			}
 			return c
 		}
 
 		// tryAt runs TryEval with exactly `unavail` unavailable.
+		// One request, one Ctx: the same *eval.Ctx (and fetcher object) serves
+		// every TryEval of this world, as in the deployment the README
+		// describes; only what the fetcher reports changes between calls.
+		reqFetcher := &SimFetcher{}
+		reqCtx := &eval.Ctx{VariableFetcher: reqFetcher}
+		reuse := w.Extra["fresh_ctx"] != "1"
+		failAt := -1
 		tryAt := func(unavail []string, clock int64) (*Plan, Outcome) {
 			p := full.Clone()
 			p.Kind = api
@@ -249,7 +265,18 @@ func (pr propC04) Run(w *World, st *Stats) *Violation {
 			for _, n := range unavail {
 				delete(p.Bind, n)
 			}
-			o := c.Run(ops, &p, "tryeval")
+			if failAt >= 0 {
+				p.FailAt = []int{failAt}
+			}
+			var o Outcome
+			if reuse {
+				env := NewEnv(ops, &p)
+				env.Phase = "tryeval"
+				reqFetcher.E = env
+				o = c.RunCtx(reqCtx, env, p.Kind)
+			} else {
+				o = c.Run(ops, &p, "tryeval")
+			}
 			st.Evals++
 			st.Steps += int64(o.Env.N + len(o.Env.Cached_))
 			st.AddFaults(o.Env.Fired)
@@ -328,6 +355,101 @@ func (pr propC04) Run(w *World, st *Stats) *Violation {
 			return nil
 		}
 
+		definite := map[int]interface{}{} // split mask (bit set = unavailable) -> definite answer
+		sr := NewRng(wh ^ uint64(mask))
+		// sound: every completion of the unavailable variables on which Eval
+		// succeeds returns val (the definite answer TryEval gave)
+		sound := func(unavail []string, val interface{}, fault int) *Violation {
+			doms := make([][]V, len(unavail))
+			total := 1
+			for i, name := range unavail {
+				doms[i] = completionDomain(tyOf[name], full.Bind[name])
+				total *= len(doms[i])
+				if total > 1<<20 {
+					total = 1 << 20
+				}
+			}
+			capN := 48
+			if len(definite) > 24 || fault >= 0 {
+				capN = 12
+			}
+			exhaustive := total <= capN
+			tries := total
+			if !exhaustive {
+				tries = capN
+			}
+			for t := 0; t < tries; t++ {
+				bind := map[string]V{}
+				for k, v := range full.Bind {
+					bind[k] = v
+				}
+				x := t
+				for i, name := range unavail {
+					var pick int
+					if exhaustive {
+						pick = x % len(doms[i])
+						x /= len(doms[i])
+					} else if t == 0 {
+						pick = len(doms[i]) - 1 // the bound values first
+					} else {
+						pick = sr.Intn(len(doms[i]))
+					}
+					bind[name] = doms[i][pick]
+				}
+				e := evalFull(bind)
+				if e.Panic != nil {
+					continue // totality is C06's business
+				}
+				if e.Err != nil {
+					st.Probe("completion_eval_fails")
+					continue
+				}
+				st.Probe("completions_checked")
+				if !ValEq(e.Val, val) {
+					vw := ns(unavail)
+					vw.Calls = append(vw.Calls, Plan{Kind: "eval", Bind: bind})
+					if fault >= 0 {
+						vw.Extra["fail_at"] = strconv.Itoa(fault)
+						return viol(vw, "unsound-after-fetch-error", "TryEval with %v unavailable, whose seam call %d failed, still returned the definite value %s; Eval under completion %s returns %s", unavail, fault, ValStr(val), (&Plan{Bind: bind}).Canon(), ValStr(e.Val))
+					}
+					return viol(vw, "unsound", "TryEval with %v unavailable returned %s, but Eval under completion %s returns %s", unavail, ValStr(val), (&Plan{Bind: bind}).Canon(), ValStr(e.Val))
+				}
+			}
+			return nil
+		}
+		// faultRuns: the same TryEval with each of its seam calls failed once
+		// (a cached entry that expires between Cached and Get, a failing
+		// operator). Whatever TryEval then returns as a definite value must
+		// still be sound.
+		faultRuns := func(unavail []string, clean *Outcome) *Violation {
+			if isC05 || !(w.EnumFaults || w.Extra["fail_at"] != "") {
+				return nil
+			}
+			lo, hi := 0, clean.Env.N
+			if fa, ok := w.Extra["fail_at"]; ok {
+				k, _ := strconv.Atoi(fa)
+				lo, hi = k, k+1
+			}
+			for k := lo; k < hi; k++ {
+				failAt = k
+				_, of := tryAt(unavail, 0)
+				failAt = -1
+				if of.Panic != nil {
+					vw := ns(unavail)
+					vw.Extra["fail_at"] = strconv.Itoa(k)
+					return viol(vw, "panic", "TryEval panicked when its seam call %d failed: %v\n%s", k, of.Panic, of.Stack)
+				}
+				norm(&of)
+				if isDefinite(&of, api) {
+					st.Probe("definite_despite_fetch_fault")
+					if v := sound(unavail, of.Val, k); v != nil {
+						return v
+					}
+				}
+			}
+			return nil
+		}
+
 		if splitMode {
 			n := len(vars)
 			nsplits := 1 << uint(n)
@@ -346,8 +468,6 @@ func (pr propC04) Run(w *World, st *Stats) *Violation {
 				}
 				nsplits = 1
 			}
-			definite := map[int]interface{}{} // split mask (bit set = unavailable) -> definite answer
-			sr := NewRng(wh ^ uint64(mask))
 			for s := 0; s < nsplits; s++ {
 				split := s
 				if only >= 0 {
@@ -370,6 +490,9 @@ func (pr propC04) Run(w *World, st *Stats) *Violation {
 				}
 				if isC05 {
 					continue
+				}
+				if v := faultRuns(unavail, &o); v != nil {
+					return v
 				}
 				if split == 0 {
 					// everything available: TryEval and Eval agree
@@ -407,57 +530,8 @@ func (pr propC04) Run(w *World, st *Stats) *Violation {
 				if control && n >= 2 {
 					st.Nontrivial(wh)
 				}
-				// soundness: every completion on which Eval succeeds returns o.Val
-				doms := make([][]V, len(unavail))
-				total := 1
-				for i, name := range unavail {
-					doms[i] = completionDomain(tyOf[name], full.Bind[name])
-					total *= len(doms[i])
-					if total > 1<<20 {
-						total = 1 << 20
-					}
-				}
-				capN := 48
-				if len(definite) > 24 {
-					capN = 12
-				}
-				exhaustive := total <= capN
-				tries := total
-				if !exhaustive {
-					tries = capN
-				}
-				for t := 0; t < tries; t++ {
-					bind := map[string]V{}
-					for k, v := range full.Bind {
-						bind[k] = v
-					}
-					x := t
-					for i, name := range unavail {
-						var pick int
-						if exhaustive {
-							pick = x % len(doms[i])
-							x /= len(doms[i])
-						} else if t == 0 {
-							pick = len(doms[i]) - 1 // the bound values first
-						} else {
-							pick = sr.Intn(len(doms[i]))
-						}
-						bind[name] = doms[i][pick]
-					}
-					e := evalFull(bind)
-					if e.Panic != nil {
-						continue // totality is C06's business
-					}
-					if e.Err != nil {
-						st.Probe("completion_eval_fails")
-						continue
-					}
-					st.Probe("completions_checked")
-					if !ValEq(e.Val, o.Val) {
-						vw := ns(unavail)
-						vw.Calls = append(vw.Calls, Plan{Kind: "eval", Bind: bind})
-						return viol(vw, "unsound", "TryEval with %v unavailable returned %s, but Eval under completion %s returns %s", unavail, ValStr(o.Val), (&Plan{Bind: bind}).Canon(), ValStr(e.Val))
-					}
+				if v := sound(unavail, o.Val, -1); v != nil {
+					return v
 				}
 			}
 			if !isC05 {
